@@ -277,6 +277,22 @@ impl<Key> BufferConsumer for AdmissionPolicy<Key>
     }
 }
 
+#[cfg(cached_verif)]
+impl<Key> AdmissionPolicy<Key>
+    where Key: Hash + Eq + Send + Sync + Clone + 'static, {
+    pub(crate) fn verif_weights(&self) -> Vec<(KeyId, Key, KeyHash, Weight)> {
+        self.cache_weight.verif_snapshot()
+    }
+
+    pub(crate) fn verif_sketch(&self) -> crate::cache::verif::Sketch {
+        self.access_frequency.read().verif_state()
+    }
+
+    pub(crate) fn verif_door_keeper_has(&self, key_hash: KeyHash) -> bool {
+        self.access_frequency.read().verif_door_keeper_has(key_hash)
+    }
+}
+
 #[cfg(test)]
 mod tests {
     use std::sync::Arc;
